@@ -31,6 +31,7 @@ Print Assumptions C18_import_placeholder.
 
 (* a media query wraps the placeholder in one `@media <query> { }` pair *)
 Theorem C18_import_media_wrapper : forall o sign spos path p q pq ps r endp st,
+  str_eqb_ci q s_layer = false ->
   import_try o sign spos (Leaf (TStr path) p :: Leaf (TIdent q) pq :: Leaf TSemi ps :: r) endp st =
   (Some r,
    tok_at (tok_at (tok_at (tok_at (tok_at st (TAt s_media) spos None) (TIdent q) pq None)
@@ -39,6 +40,30 @@ Theorem C18_import_media_wrapper : forall o sign spos path p q pq ps r endp st,
           TCloseCurly spos None).
 Proof. exact import_placeholder_media. Qed.
 Print Assumptions C18_import_media_wrapper.
+
+(* the bare `layer` keyword directly after the target is an anonymous layer, in any letter case
+   (fix 89a064d; it was read as the media type `layer`) *)
+Theorem C18_import_bare_layer_wrapper : forall o sign spos path p q pq ps r endp st,
+  str_eqb_ci q s_layer = true ->
+  import_try o sign spos (Leaf (TStr path) p :: Leaf (TIdent q) pq :: Leaf TSemi ps :: r) endp st =
+  (Some r,
+   tok_at (tok_at (tok_at (tok_at st (TAt q) pq (Some (TIdent q))) TCurly pq None)
+                  (TComment (sign ++ [32] ++ url_encode path)) spos None)
+          TCloseCurly pq None).
+Proof. exact import_placeholder_bare_layer. Qed.
+Print Assumptions C18_import_bare_layer_wrapper.
+
+(* `layer(..)` in any letter case: one `@layer <name> { }` wrapper, the name written by the value
+   walker (fix 33fc779) *)
+Theorem C18_import_layer_wrapper : forall o sign spos path p x px body be cl ps r endp st,
+  str_eqb_ci x s_layer = true ->
+  import_try o sign spos (Leaf (TStr path) p :: Block (TFunc x) px body be cl :: Leaf TSemi ps :: r) endp st =
+  (Some r,
+   tok_at (tok_at (tok_at (rpx_body o false body None (tok_at st (TAt x) px (Some (TFunc x)))) TCurly px None)
+                  (TComment (sign ++ [32] ++ url_encode path)) spos None)
+          TCloseCurly px None).
+Proof. exact import_placeholder_layer_fn. Qed.
+Print Assumptions C18_import_layer_wrapper.
 
 Theorem C18_import_passthrough : forall o rec p r endp at_start st,
   import_sign o = None ->
@@ -55,6 +80,22 @@ Theorem C18_import_position_warning : forall o rec sign p r endp st,
                 st' = snd (import_try o sign (cur_pos r endp) r endp st0).
 Proof. exact import_position_warning. Qed.
 Print Assumptions C18_import_position_warning.
+
+(* ... and the first position is kept by `@import` / `@charset` rules only (fix 73ca189: the second of
+   two leading imports was flagged); rule lists nested in a block never start a sheet *)
+Theorem C18_import_start_survives : forall f o x p r endp st rest st',
+  str_eqb_ci x s_import || str_eqb_ci x s_charset = true ->
+  at_rule o (fun body be s => rules f o body be false s) (Leaf (TAt x) p :: r) endp true st = Some (rest, st') ->
+  rules (S f) o (Leaf (TAt x) p :: r) endp true st = rules f o rest endp true st'.
+Proof. exact import_start_survives. Qed.
+Print Assumptions C18_import_start_survives.
+
+Theorem C18_import_start_lost : forall f o x p r endp at_start st rest st',
+  str_eqb_ci x s_import || str_eqb_ci x s_charset = false ->
+  at_rule o (fun body be s => rules f o body be false s) (Leaf (TAt x) p :: r) endp at_start st = Some (rest, st') ->
+  rules (S f) o (Leaf (TAt x) p :: r) endp at_start st = rules f o rest endp false st'.
+Proof. exact import_start_lost. Qed.
+Print Assumptions C18_import_start_lost.
 
 (* the url forms write the same placeholder (fix eb11eee; before it the rule was dropped, D17) *)
 Theorem C18_import_placeholder_url : forall o sign spos path w pw p ps r endp st,
